@@ -195,7 +195,9 @@ func (g *TmGen) buildHeader(s hdrSpec) (*ibctmtypes.Header, string) {
 	return &ibctmtypes.Header{SignedHeader: sh, ValidatorSet: vsp, TrustedHeight: s.trustedH, TrustedValidators: tvp}, strings.Join(cstr, ",")
 }
 
-func hstr(h clienttypes.Height) string { return fmt.Sprintf("%d.%d", h.RevisionNumber, h.RevisionHeight) }
+func hstr(h clienttypes.Height) string {
+	return fmt.Sprintf("%d.%d", h.RevisionNumber, h.RevisionHeight)
+}
 
 // clientDump prints the real client's consensus states in iteration-key order.
 func (g *TmGen) clientDump(c *tibctesting.TestChain, name string) string {
